@@ -22,11 +22,11 @@ class CreatedFiles:
 
     # Private attributes:
     #
-    # dict<str, int> _norm_cased_dir_to_started_count - A map from the
-    #     immediate parent directory of each file we have started building and
-    #     have not finished with an exception to the number of such regular
-    #     files that are immediate children of those directories. This does not
-    #     include mappings to 0.
+    # dict<str, int> _norm_cased_dir_to_started_count - A map from each
+    #     directory in _norm_cased_dirs to the number of its immediate children
+    #     that keep it "created": the regular files we have started building
+    #     and have not finished with an exception, plus the subdirectories in
+    #     _norm_cased_dirs. This does not include mappings to 0.
     # dict<str, dict<str, str>> _norm_cased_dir_to_subfiles - A map of the
     #     "created" subfiles of each directory. For each non-norm-cased
     #     filename X for an element in _norm_cased_files or _norm_cased_dirs,
@@ -54,16 +54,20 @@ class CreatedFiles:
             filename (str): The non-norm-cased filename of the output
                 file.
         """
-        parent = os.path.dirname(filename)
-        norm_cased_parent = os.path.normcase(parent)
-        self._norm_cased_dir_to_started_count[norm_cased_parent] = (
-            self._norm_cased_dir_to_started_count.get(norm_cased_parent, 0) +
-            1)
-        while norm_cased_parent not in self._norm_cased_dirs:
+        prev_parent = filename
+        parent = os.path.dirname(prev_parent)
+        while parent != prev_parent:
+            norm_cased_parent = os.path.normcase(parent)
+            count = self._norm_cased_dir_to_started_count.get(
+                norm_cased_parent, 0)
+            self._norm_cased_dir_to_started_count[norm_cased_parent] = (
+                count + 1)
+            if count > 0:
+                break
             self._norm_cased_dirs.add(norm_cased_parent)
             self._add_to_subfiles(parent)
+            prev_parent = parent
             parent = os.path.dirname(parent)
-            norm_cased_parent = os.path.normcase(parent)
 
     def finished_building_file(self, filename):
         """Update this for successfully finishing a build file operation.
@@ -83,17 +87,18 @@ class CreatedFiles:
         Arguments:
             filename (str): The filename of the output file.
         """
-        parent = os.path.normcase(os.path.dirname(filename))
-        count = self._norm_cased_dir_to_started_count[parent] - 1
-        if count > 0:
-            self._norm_cased_dir_to_started_count[parent] = count
-            return
-
-        self._norm_cased_dir_to_started_count.pop(parent)
-        self._norm_cased_dirs.remove(parent)
-        while self._remove_from_subfiles(parent):
-            parent = os.path.dirname(parent)
+        prev_parent = os.path.normcase(filename)
+        parent = os.path.dirname(prev_parent)
+        while parent != prev_parent:
+            count = self._norm_cased_dir_to_started_count[parent] - 1
+            if count > 0:
+                self._norm_cased_dir_to_started_count[parent] = count
+                break
+            self._norm_cased_dir_to_started_count.pop(parent)
             self._norm_cased_dirs.remove(parent)
+            self._remove_from_subfiles(parent)
+            prev_parent = parent
+            parent = os.path.dirname(parent)
 
     def has_norm_cased_file(self, norm_cased_filename):
         """Return whether we created a regular file with the given filename.
